@@ -106,6 +106,8 @@ def consistent(conj):
   for e, t in conj:
     if t and never_true(e):
       return False
+    if isinstance(e, ast.Constant) and bool(e.value) != t:
+      return False        # a literal test (`... or True`, a table entry substituted by unrolling) taken the impossible way
     if (not t) and isinstance(e, ast.Compare) and len(e.ops) == 1 and isinstance(e.ops[0], ast.IsNot) \
         and never_true(ast.Compare(left=e.left, ops=[ast.Is()], comparators=e.comparators)):
       return False        # `x is not <fresh object>` is always true
